@@ -1,12 +1,16 @@
 from vf import Job
 TU = "c11_modular.c"
 UNW = ["--unwind", "1030", "--unwinding-assertions"]
-JOBS = [
-  Job("c11.destructors_rec", TU, "h_destructors_rec", rec=["myth_tls_call_destructors_rec/destructors_rec_contract"],
-      cbmc=UNW, fuc=["myth_tls_call_destructors_rec"], timeout=600, mem_gb=8,
-      note="inductive: arbitrary level, recursive calls replaced by the same contract; inner loops (4 children / 16 entries) fully unwound"),
-  Job("c11.destroy_rec", TU, "h_destroy_rec", rec=["myth_tls_tree_destroy_rec/destroy_rec_contract"],
-      cbmc=UNW, fuc=["myth_tls_tree_destroy_rec", "myth_tls_tree_node_free"], timeout=600, mem_gb=8),
+JOBS = []
+for d in (0, 1, 2, 3):
+    JOBS.append(Job("c11.destructors_rec.d%d" % d, TU, "h_destructors_rec", rec=["myth_tls_call_destructors_rec/destructors_rec_contract"],
+      defines=["-DDEPTH=%d" % d], cbmc=UNW, fuc=["myth_tls_call_destructors_rec"], timeout=600, mem_gb=8,
+      note="inductive: tree level %d, any base; recursive calls replaced by the same contract; inner loops (4 children / 16 entries) fully unwound" % d))
+    JOBS.append(Job("c11.destroy_rec.d%d" % d, TU, "h_destroy_rec", rec=["myth_tls_tree_destroy_rec/destroy_rec_contract"],
+      replace=["myth_tls_tree_node_free/node_free_contract"],
+      defines=["-DDEPTH=%d" % d], cbmc=UNW, fuc=["myth_tls_tree_destroy_rec"], timeout=600, mem_gb=8))
+JOBS += [
+  Job("c11.node_free.pool", TU, "h_node_free_pool", cbmc=UNW, fuc=["myth_tls_tree_node_free"], timeout=300),
   Job("c11.fini", TU, "h_fini", replace=["myth_tls_call_destructors_rec/destructors_rec_contract", "myth_tls_tree_destroy_rec/destroy_rec_contract"],
       cbmc=UNW, fuc=["myth_tls_tree_fini", "myth_tls_call_destructors", "myth_tls_tree_destroy"], timeout=600, mem_gb=8),
   Job("c11.fini.all_trees", "c11_tls_destructors.c", "h_fini", cbmc=UNW, tiers=("thorough",),
@@ -24,6 +28,7 @@ META = {
  "assumptions": [
    "tree shape: every node has exactly one parent (canonical harness memory); destructors are ordinary functions that do not touch the tree being destroyed",
    "real_free (libc, resolved by myth_real.c) is a stub counting calls for a witness node",
+   "flat address space: a node outside the descriptor's embedded pool compares outside the pool bounds (cross-object pointer comparison in myth_tls_tree_node_free is not decidable in CBMC's memory model; node_free is used by contract, its body is proved for pool nodes only)",
    "a destructor call with a NULL value is tolerated (at most once per key); POSIX forbids it, see C16",
    "inner loops are bounded by constants of the type (4 children, 16 entries, 1024 keys) and fully unwound with unwinding assertions",
  ],
